@@ -1065,6 +1065,11 @@ dispatch_source_cancel_and_wait(dispatch_source_t ds)
 		// taking the lock, so we need to check we're not doing it twice.
 		if (likely(!(_dispatch_queue_atomic_flags(ds) & DSF_DELETED))) {
 			// same thing _dispatch_source_invoke2() does for cancellation
+			//
+			// the source may be activated but not installed yet (deferred
+			// registration): like _dispatch_source_activate() for a canceled
+			// source, never install it once it is marked as deleted
+			ds->ds_is_installed = true;
 			_dispatch_source_refs_unregister(ds, DUU_DELETE_ACK | DUU_PROBE);
 		}
 		if (likely(_dispatch_queue_atomic_flags(ds) & DSF_DELETED)) {
